@@ -2,6 +2,7 @@
 package main
 
 import (
+	"runtime/debug"
 	"runtime/pprof"
 	"encoding/json"
 	"flag"
@@ -93,6 +94,9 @@ func main() {
 				defer func() {
 					if rec := recover(); rec != nil {
 						r.Fatal = append(r.Fatal, fmt.Sprintf("CHECKER-PANIC: %v", rec))
+						if os.Getenv("KMCHECK_TRACE") != "" {
+							debug.PrintStack()
+						}
 					}
 				}()
 				f(c)
